@@ -15,6 +15,7 @@
 #include <map>
 #include <set>
 #include <unistd.h>
+#include <sys/time.h>
 #include <fcntl.h>
 
 EvLog g_logs[SA_MAX_TASKS + 1];
@@ -213,9 +214,9 @@ static void emit_inflight(const char* why) {
   if (n > 0) { ssize_t w = write(2, buf, (size_t)n); (void)w; w = write(1, buf, (size_t)n); (void)w; }
 }
 static void on_signal(int sig) {
-  emit_inflight(sig == SIGSEGV ? "SIGSEGV" : sig == SIGBUS ? "SIGBUS" : sig == SIGABRT ? "SIGABRT" : sig == SIGFPE ? "SIGFPE" : sig == SIGALRM ? "WATCHDOG" : "SIGNAL");
+  emit_inflight(sig == SIGSEGV ? "SIGSEGV" : sig == SIGBUS ? "SIGBUS" : sig == SIGABRT ? "SIGABRT" : sig == SIGFPE ? "SIGFPE" : (sig == SIGALRM || sig == SIGPROF) ? "WATCHDOG" : "SIGNAL");
   signal(sig, SIG_DFL);
-  if (sig == SIGALRM) _exit(99);
+  if (sig == SIGALRM || sig == SIGPROF) _exit(99);
   raise(sig);
 }
 extern "C" void __sanitizer_set_death_callback(void (*)(void)) __attribute__((weak));
@@ -232,7 +233,7 @@ static void install_handlers() {
   static char altstack[1 << 16];
   stack_t ss; ss.ss_sp = altstack; ss.ss_size = sizeof altstack; ss.ss_flags = 0; sigaltstack(&ss, nullptr);
   struct sigaction sa; memset(&sa, 0, sizeof sa); sa.sa_handler = on_signal; sa.sa_flags = SA_ONSTACK | SA_NODEFER;
-  sigaction(SIGABRT, &sa, nullptr); sigaction(SIGALRM, &sa, nullptr); sigaction(SIGFPE, &sa, nullptr);
+  sigaction(SIGABRT, &sa, nullptr); sigaction(SIGALRM, &sa, nullptr); sigaction(SIGPROF, &sa, nullptr); sigaction(SIGFPE, &sa, nullptr);
 #if !defined(SIM_FLAVOUR_ASAN)
   prot_install_handler(emit_inflight);
 #endif
@@ -256,7 +257,9 @@ static void exec_plan(const J& plan) {
   g_run.prop = plan.gets("prop");
   const Workload* w = find_workload(plan.gets("w"));
   if (!w) { fprintf(stderr, "HARNESS: unknown workload '%s'\n", plan.gets("w").c_str()); exit(2); }
-  alarm(plan.at("knobs").getu("watchdog", 120));
+  // watchdog: CPU time of this process (a loaded machine must not turn a slow run into a harness fault); the wall-clock
+  // alarm is only a backstop for a run that blocks without consuming CPU
+  { uint64_t wd = plan.at("knobs").getu("watchdog", 120); struct itimerval it; memset(&it, 0, sizeof it); it.it_value.tv_sec = (time_t)wd; setitimer(ITIMER_PROF, &it, nullptr); alarm((unsigned)(wd * 10)); }
 #if defined(__SSE__)
   // the calling thread's floating-point mode is part of the environment: an application linked with -ffast-math runs with
   // flush-to-zero / denormals-are-zero set, and the library must keep float bits exact there too
@@ -267,7 +270,7 @@ static void exec_plan(const J& plan) {
 #if defined(__SSE__)
   if (fp) _mm_setcsr(csr);
 #endif
-  alarm(0);
+  { struct itimerval it; memset(&it, 0, sizeof it); setitimer(ITIMER_PROF, &it, nullptr); alarm(0); }
 }
 
 static J viol_json(const J& plan) {
